@@ -332,7 +332,9 @@ theorem applyRes_sim (cfg : Cfg) {pol : Policy} (hpol : TimeFree pol) (step : Na
   | addCollected buf ev =>
     simp only [applyRes]
     have hw := h.st.workers step
-    rw [← hw.collected, ← h.snapEvents]
+    rw [← hw.collected, ← h.snapEvents, ← h.still]
+    split
+    · exact h
     split
     · refine ⟨h.st.set step ⟨hw.queue, rfl, hw.waiters, hw.inProg⟩, ?_, h.out, rfl, ?_⟩
       · simp only [keyCmds_append, h.cmds, h.wid]
@@ -341,7 +343,7 @@ theorem applyRes_sim (cfg : Cfg) {pol : Policy} (hpol : TimeFree pol) (step : Na
         cases hx : x.exec; cases hy : y.exec
         rw [hx, hy] at this
         simp_all
-    · exact ⟨h.st.set step ⟨hw.queue, rfl, hw.waiters, hw.inProg⟩, h.cmds, h.out, h.still, h.exec⟩
+    · exact ⟨h.st.set step ⟨hw.queue, rfl, hw.waiters, hw.inProg⟩, h.cmds, h.out, rfl, h.exec⟩
   | deleteCollected buf =>
     simp only [applyRes]
     split
